@@ -28,7 +28,7 @@
  "name": "fill_dir_block_32",
  "props": ["C05", "C10"],
  "level": "U/k",
- "tier": "wip",
+ "tier": "quick",
  "harness": "h_fill_dir_block",
  "enforce": ["fill_dir_block"],
  "replace": ["ext2fs_resize_array"],
@@ -37,10 +37,31 @@
  "sources": ["lib/ext2fs/dir_iterate.c"],
  "unwind": 10,
  "unwindset": {"fill_dir_block.0": 5, "fd_post.0": 6, "h_fill_dir_block.0": 6},
- "unwind_reason": "the entry loop of fill_dir_block advances by rec_len >= 8 per iteration, so a 64-byte block has at most 8 entries (9th test exits); the spec walk likewise; unwinding assertions on",
+ "unwind_reason": "the entry loop of fill_dir_block advances by rec_len >= 8 per iteration, so a 32-byte block has at most 4 entries (5th test exits); the spec walk in the unit likewise; unwinding assertions on",
  "timeout": 600,
  "functions": ["e2fsck/rehash.c:fill_dir_block", "e2fsck/rehash.c:is_fake_entry", "lib/ext2fs/dir_iterate.c:ext2fs_get_rec_len"],
- "assumes": ["SYMBOLIC BLOCK OF 64 BYTES (fs->blocksize 64, smaller than any legal ext2 block; the function is parametric in the block size; larger blocks are out of CBMC's reach, see link_proc_64)", "blockcnt in {-1, 0, 1}; fd->buf holds 2 blocks of arbitrary bytes", "ext2fs_read_dir_block4 is a stub: checks its arguments and that EXT2_FLAG_IGNORE_CSUM_ERRORS is set during the call, may fail, leaves the (already arbitrary) buffer bytes as the block content", "ext2fs_dirhash2 is a stub: checks its arguments (version, name pointer/length consistent with the entry, encoding, flags, seed), may fail, returns a fixed injective function of the name position", "fd->num_array + 8 <= fd->max_array: the array-growth path (ext2fs_resize_array + realloc) is not exercised", "fd->num_array <= 3 on entry, fd->err == 0"],
+ "assumes": ["SYMBOLIC BLOCK OF 32 BYTES (fs->blocksize 32, at most 4 entries, smaller than any legal ext2 block; the function is parametric in the block size; larger blocks are out of CBMC's reach, see link_proc_64)", "blockcnt in {-1, 0, 1}; fd->buf holds 2 blocks of arbitrary bytes FOLLOWED BY 264 READABLE SLACK BYTES: CBMC checks every `dirent->name[..]` access as an access to the whole 263-byte struct ext2_dir_entry, which only fits with that slack; the slack hides over-reads behind the last block, which are checked (and found: findings/C10_fill_dir_block_overread) by unit fill_dir_block_32_tight", "ext2fs_read_dir_block4 is a stub: checks its arguments and that EXT2_FLAG_IGNORE_CSUM_ERRORS is set during the call, may fail, leaves the (already arbitrary) buffer bytes as the block content", "ext2fs_dirhash2 is a stub: checks its arguments (version, name pointer/length consistent with the entry, encoding, flags, seed), may fail, returns a fixed injective function of the name position", "fd->num_array + 4 <= fd->max_array (num_array <= 3, max_array 12): the array-growth path is not exercised; ext2fs_resize_array is replaced by a contract with precondition FALSE, so DFCC proves it is never called under this assumption", "fd->num_array <= 3 on entry, fd->err == 0"],
+ "native": false
+}
+*/
+/* VERIF-UNIT
+{
+ "name": "fill_dir_block_32_tight",
+ "props": ["C05", "C10"],
+ "level": "U/k",
+ "tier": "wip",
+ "harness": "h_fill_dir_block",
+ "enforce": ["fill_dir_block"],
+ "replace": ["ext2fs_resize_array"],
+ "includes": ["e2fsck", "lib/support"],
+ "defines": ["FD_BS=32", "FD_SLACK=0", "FD_TIGHT"],
+ "sources": ["lib/ext2fs/dir_iterate.c"],
+ "unwind": 10,
+ "unwindset": {"fill_dir_block.0": 5, "fd_post.0": 6, "h_fill_dir_block.0": 6},
+ "unwind_reason": "the entry loop of fill_dir_block advances by rec_len >= 8 per iteration, so a 32-byte block has at most 4 entries (5th test exits); the spec walk in the unit likewise; unwinding assertions on",
+ "timeout": 600,
+ "functions": ["e2fsck/rehash.c:fill_dir_block", "e2fsck/rehash.c:is_fake_entry", "lib/ext2fs/dir_iterate.c:ext2fs_get_rec_len"],
+ "assumes": ["SYMBOLIC BLOCK OF 32 BYTES (fs->blocksize 32, at most 4 entries, smaller than any legal ext2 block; the function is parametric in the block size; larger blocks are out of CBMC's reach, see link_proc_64)", "blockcnt in {-1, 0, 1}; fd->buf holds 2 blocks of arbitrary bytes and NOTHING behind them (as e2fsck_rehash_dir allocates exactly i_size bytes); every entry the walk visits is unused (inode 0), so only the chain walk itself is exercised. EXPECTED TO FAIL on the unchanged tree: header read 4 bytes past the buffer (findings/C10_fill_dir_block_overread); green with proposed-fix.patch", "ext2fs_read_dir_block4 is a stub: checks its arguments and that EXT2_FLAG_IGNORE_CSUM_ERRORS is set during the call, may fail, leaves the (already arbitrary) buffer bytes as the block content", "ext2fs_dirhash2 is a stub: checks its arguments (version, name pointer/length consistent with the entry, encoding, flags, seed), may fail, returns a fixed injective function of the name position", "fd->num_array + 4 <= fd->max_array (num_array <= 3, max_array 12): the array-growth path is not exercised; ext2fs_resize_array is replaced by a contract with precondition FALSE, so DFCC proves it is never called under this assumption", "fd->num_array <= 3 on entry, fd->err == 0"],
  "native": false
 }
 */
@@ -86,7 +107,11 @@ errcode_t ext2fs_resize_array(unsigned long old_count, unsigned long count, unsi
 
 #include "e2fsck/rehash.c"
 
-static unsigned char BUF[2 * FD_BS] __attribute__((aligned(8)));
+#ifndef FD_SLACK
+#define FD_SLACK 264	/* sizeof(struct ext2_dir_entry): see "assumes" */
+#endif
+#define BUFSZ (2 * FD_BS + FD_SLACK)
+static unsigned char BUF[BUFSZ] __attribute__((aligned(8)));
 static struct struct_ext2_filsys FS;
 static struct ext2_super_block SB;
 static struct ext2_inode INODE;
@@ -149,6 +174,7 @@ struct walk {
 	int has_dotdot; unsigned dotdot_ino;
 	/* the collected entry of rank IN.g */
 	int g_found; unsigned g_pos, g_ino, g_nl; int g_x;
+	int any_live;			/* some visited entry is in use */
 	int saw_dot_like;		/* a collected entry whose name starts with '.' (".x", "...", ".." with other length) */
 };
 
@@ -158,12 +184,16 @@ struct walk {
  * contract clauses, and a contract clause must not have side effects on globals) */
 #define FD_WALK(W) do { \
 	unsigned pos = 0; \
-	(W).corrupted = 0; (W).cnt = 0; (W).size = 0; (W).has_dotdot = 0; (W).dotdot_ino = 0; (W).g_found = 0; (W).saw_dot_like = 0; \
+	(W).corrupted = 0; (W).cnt = 0; (W).size = 0; (W).has_dotdot = 0; (W).dotdot_ino = 0; (W).g_found = 0; (W).saw_dot_like = 0; (W).any_live = 0; \
 	(W).g_pos = (W).g_ino = (W).g_nl = 0; (W).g_x = 0; \
 	for (unsigned it = 0; it < BS / 8 + 1; it++) { \
 		if (pos >= BS) \
 			break; \
 		unsigned o = g_off + pos; \
+		if (pos + DE_HDR > BS) {	/* not even a header fits: the chain does not end at the block end */ \
+			(W).corrupted = 1; \
+			break; \
+		} \
 		unsigned ino = DE_INO(BUF, o), rec = DE_REC(BUF, o), nl = DE_NL(BUF, o); \
 		int x = HASH_IN_DIRENT && !SLOT_IS_FAKE(pos); \
 		unsigned min_rec = DE_HDR + (x ? 8u : 0u); \
@@ -172,6 +202,7 @@ struct walk {
 			break; \
 		} \
 		if (ino != 0) { \
+			(W).any_live = 1; \
 			if (nl == 0) { \
 				(W).corrupted = 1; \
 				break; \
@@ -294,7 +325,7 @@ static int fill_dir_block(ext2_filsys fs, blk64_t *block_nr, e2_blkcnt_t blockcn
 	REQUIRES(FD.err == 0 && FD.harray == HARR && FD.max_array == HCAP && FD.num_array == IN.num0 && IN.num0 <= 3)
 	REQUIRES(FD.dir_size == (ext2_off64_t)IN.dir_size0 && FD.compress == IN.compress && IN.compress <= 1 && FD.parent == IN.parent0 && FD.dir == IN.dirino)
 	REQUIRES(SB.s_def_hash_version == IN.hash_version && SB.s_flags == IN.sb_flags && SB.s_feature_ro_compat == IN.sb_ro_compat)
-	REQUIRES(IN.blockcnt >= -1 && IN.blockcnt <= 1 && IN.k < 2 * FD_BS && IN.g < FD_BS / 8 && g_off == (IN.blockcnt > 0 ? FD_BS : 0))
+	REQUIRES(IN.blockcnt >= -1 && IN.blockcnt <= 1 && IN.k < BUFSZ && IN.g < FD_BS / 8 && g_off == (IN.blockcnt > 0 ? FD_BS : 0))
 	REQUIRES(IN.dir_size0 < 0x100000000ull && g_read_called == 0 && g_hash_calls == 0 && g_hash_failed == 0 && g_old_k == BUF[IN.k])
 	ENSURES(fd_post(RET) == 0)
 	ASSIGNS(__CPROVER_object_whole(BUF), __CPROVER_object_whole(HARR), FS.flags, FD.err, FD.num_array, FD.max_array, FD.harray, FD.dir_size, FD.parent,
@@ -303,8 +334,8 @@ static int fill_dir_block(ext2_filsys fs, blk64_t *block_nr, e2_blkcnt_t blockcn
 void h_fill_dir_block(void)
 {
 	LOAD_IN();
-	{ unsigned char nd[2 * FD_BS]; __CPROVER_array_replace(BUF, nd); }	/* arbitrary bytes: what the read stub "returns" */
-	ASSUME(IN.blockcnt >= -1 && IN.blockcnt <= 1 && IN.k < 2 * BS && IN.g < FD_BS / 8 && IN.num0 <= 3 && IN.compress <= 1);
+	{ unsigned char nd[BUFSZ]; __CPROVER_array_replace(BUF, nd); }	/* arbitrary bytes: what the read stub "returns" */
+	ASSUME(IN.blockcnt >= -1 && IN.blockcnt <= 1 && IN.k < BUFSZ && IN.g < FD_BS / 8 && IN.num0 <= 3 && IN.compress <= 1);
 	ASSUME(IN.dir_size0 < 0x100000000ull);
 	FS.blocksize = FD_BS;
 	FS.super = &SB;
@@ -334,6 +365,11 @@ void h_fill_dir_block(void)
 	g_read_called = g_hash_calls = g_hash_failed = 0;
 	g_read_flag_ok = 0;
 
+#ifdef FD_TIGHT
+	/* chain-walk memory safety only: no visited entry is in use (so no `dirent->name` lvalue is formed) */
+	{ struct walk W0; FD_WALK(W0); ASSUME(!W0.any_live); }
+#endif
+
 	int ret = fill_dir_block(&FS, &BLKNR, IN.blockcnt, 0, 0, &FD);
 
 	unsigned bad = fd_post(ret);
@@ -349,12 +385,16 @@ void h_fill_dir_block(void)
 	CHECK(!(bad & V_KEEP), "KEEP: block bytes unchanged");
 	CHECK(!(bad & V_HOLE), "HOLE: a hole becomes one unused entry spanning a zeroed block, nothing read");
 	CHECK(!(bad & V_FLAGS), "FLAGS: fs->flags restored; IGNORE_CSUM_ERRORS set during the read");
+#ifndef FD_TIGHT
 	if (ret == 0 && IN.blockcnt >= 0 && W.cnt >= 2 && W.g_found && IN.g == 1) REACH("two entries collected");
 	if (ret == 0 && IN.blockcnt >= 0 && W.saw_dot_like) REACH("dot-like name collected");
 	if (ret == 0 && IN.blockcnt >= 0 && W.has_dotdot) REACH("dotdot skipped");
 	if (ret == 0 && IN.blockcnt >= 0 && W.g_found && W.g_x) REACH("hash in dirent");
 	if (ret == BLOCK_ABORT && FD.err == EXT2_ET_DIR_CORRUPTED && FD.num_array > IN.num0) REACH("corrupted after some entries");
-	if (ret == 0 && IN.blk == 0 && IN.blockcnt >= 0) REACH("hole");
 	if (g_hash_failed) REACH("hash error");
+#else
+	if (ret == BLOCK_ABORT && IN.blockcnt == 1 && IN.blk != 0 && !IN.read_err && DE_REC(BUF, g_off) == BS - 4) REACH("chain stops 4 bytes short of the last block's end");
+#endif
+	if (ret == 0 && IN.blk == 0 && IN.blockcnt >= 0) REACH("hole");
 	REACH("end");
 }
